@@ -20,8 +20,10 @@ open Storage Xref
 
 variable {A R C I : Type}
 
-/-- **C10, /W**: `byte_len n` bytes hold `n` (and for `n ≥ 256` no fewer do): the column widths the
-    cross-reference stream announces are the exact number of base-256 digits of the largest field. -/
+/-- **C10, `byte_len`**: `byte_len n` bytes hold `n` (and for `n ≥ 256` no fewer do) — a statement about the function
+    `byteLen` alone. That the `/W` of a save *is* `byteLen` of the largest field of each column is `save_ok_widths`
+    (Lemmas/SaveShape.lean) and is used by `rows_fit_widths` below; the two together say that the widths announced are the
+    exact number of base-256 digits. -/
 theorem byteLen_bounds (n : Nat) :
     1 ≤ byteLen n ∧ n < 256 ^ byteLen n ∧ (256 ≤ n → 256 ^ (byteLen n - 1) ≤ n) :=
   ⟨byteLen_pos n, lt_pow_byteLen n, pow_byteLen_le n⟩
@@ -119,7 +121,8 @@ theorem build_reload (L : Layout) (cached : Bool) (pages : List (PageSpec A R C)
   exact facts.pending j v g (pf.ch_sup j _ hc) c
 
 /-- **C10, structural validity of the built file** (model level; the same facts are checked on the real
-    bytes by the independent reader): the header is at offset 0; `startxref` is the offset of a
+    bytes by the independent reader): the header is at offset 0; at offset `i.xpos` (the `SaveInfo` field the model
+    writes after `startxref`: that the *bytes* end with it is `build_bytes_valid`) stands a
     cross-reference section with `/Index [0 n]`, the rows of the theorem, `/Size` = `i.size`, no `/Prev`;
     `/Size` is above every row and above the number of every object in the file; row 0 is the head of
     the free list; every other row is in use, has generation 0 and is the offset of the record
@@ -403,7 +406,7 @@ theorem build_bytes_pages_total (fmt : R → List UInt8) (env : Env R) (hd : env
     * the file ends with `startxref`, the offset of the cross-reference stream object and `%%EOF`; that object stands
       at this offset and its dictionary announces `/Size`, the `/Length` of the rows' bytes and `/Root`;
     * every stream the builder wrote carries a `/Length` equal to the number of bytes between `stream\n` and
-      `\nendstream`. -/
+      `\nendstream` of the record that the stream's own cross-reference row points at (`off`). -/
 theorem build_bytes_valid (fmt : R → List UInt8) (env : Env R) (hd : env.decrypt = none) (pfuel : Nat)
     (dec : Dict R → List UInt8 → Out (List UInt8)) (hdec : NoFilter dec) (pages : List (PageB R)) (info : Option (Prim R))
     (hn : pages.length ≤ 1000000) (hp : ∀ p ∈ pages, PageOK fmt env.parseReal p)
@@ -422,7 +425,8 @@ theorem build_bytes_valid (fmt : R → List UInt8) (env : Env R) (hd : env.decry
     (∀ j info' data g,
       chLookup (prep (prepared fmt pages info).doc).st2.changes j = some (.stream info' (.pending data), g) →
       dictGet info' kwLength = some (.int (data.length : Int)) ∧
-      ∃ off txt rest, SpellsStream env.parseReal info' data txt ∧ b'.bytes.drop off = objFrame j g (txt ++ [10]) ++ rest) := by
+      ∃ off txt rest, i.rows[j]? = some (.raw off g) ∧ SpellsStream env.parseReal info' data txt ∧
+        b'.bytes.drop off = objFrame j g (txt ++ [10]) ++ rest) := by
   have hmono : (prepared fmt pages info).bytes.length ≤ b'.bytes.length := by
     rw [(saveB_ok_iff fmt true _ _ i hs).2.2]; simp
   have hb0 := baseOK_empty info pages.length
@@ -500,12 +504,13 @@ theorem build_bytes_valid (fmt : R → List UInt8) (env : Env R) (hd : env.decry
     | direct v hsr _ _ => rw [← hov] at hsr; exact absurd hsr (by simp [Serialisable])
     | stream info2 data2 hs2 _ _ hl2 _ =>
       cases hov
-      obtain ⟨off, rest, body, _, _, hser, hdrop⟩ := sb.frames j _ g hc
+      obtain ⟨off, rest, body, _, hrow, hser, hdrop⟩ := sb.frames j _ g hc
+      rw [hstart, Nat.sub_zero] at hrow
       obtain ⟨txt, hser2, hsp⟩ := serialize_stream_ok fmt env.parseReal info' data hs2
       rw [hser2] at hser
       simp only [Out.ok.injEq] at hser
       subst hser
-      exact ⟨hl2, off, txt, rest, hsp, hdrop⟩
+      exact ⟨hl2, off, txt, rest, hrow, hsp, hdrop⟩
 
 /-! ### Non-vacuity: a one-page document, built, opened and resolved by the model inside the kernel -/
 
